@@ -399,6 +399,9 @@ static Q obj_at(const Data& d, const Vec& x) { Q b; Vec o = obj_vec(d, b); retur
 static std::unique_ptr<MIP> clone(const MIP& s);
 static bool stale_cached_point(const MIP& m) {
   if (!m.initialized || m.status == MIP::UNSATISFIABLE) return false;
+  // The open defect needs a MIP solve: only then is the cached point (the branch-and-bound optimum) legitimately
+  // different from the tableau's vertex.  For a pure LP the two must coincide, so a mismatch there is a different fault.
+  if (m.i_variables.empty()) return false;
   if (m.first_pending_constraint >= m.input_cs.size()) return false;
   if (m.tableau.num_rows() != m.base.size() || m.mapping.size() != m.internal_space_dim + 1) return false;
   std::unique_ptr<MIP> c = clone(m);
